@@ -638,6 +638,8 @@ package ackhandler
 //@   ensures [range-cursor-monotone] old(ackRangeIndex) <= ackRangeIndex && ackRangeIndex <= nr - 1
 //@   ensures [ack-eliciting-only-from-acked] implies(hasAckEliciting && !old(hasAckEliciting), appended == 1 && (len(arg1.StreamFrames) > 0 || len(arg1.Frames) > 0))
 //@   ensures [stops-beyond-largest] implies(arg0 > largestAcked, !result && appended == 0)
+//@   ensures [results-only-set-when-returning] implies(result || jump == 2, _1 == old(_1) && len(_0) == old(len(_0)))
+//@   ensures [returns-only-with-an-error] implies(!result, jump == 2 || (jump == 3 && _1 != nil && len(_0) == 0))
 //@   modifies h.ackedPackets, elems(packetWithPacketNumber), ackRangeIndex, hasAckEliciting, _0, _1, pnSpace.history.pathProbePackets, pnSpace.history.pathProbePackets[*]
 //@ loop (h *sentPacketHandler) detectAndRemoveAckedPackets$2 #0
 //@   invariant 0 <= ackRangeIndex && ackRangeIndex <= nr - 1 && old(ackRangeIndex) <= ackRangeIndex
@@ -1022,4 +1024,44 @@ package ackhandler
 //@   trusted constructor (ECN validation state; not part of any claim)
 //@   ensures result != nil
 //@   fresh
+//@   modifies nothing
+
+// detectAndRemoveAckedPackets, examined in two halves that meet at the head of the removal loop (#1). Exploring the function
+// in one piece multiplies the ways of reaching that loop (space, two range-over-func loops, logging) with the paths through
+// it; "#head" (opt cutatloop 1) shows that every way of reaching the loop establishes its invariant, "#tail" (opt startloop 1)
+// runs the loop and the rest of the function from an arbitrary state satisfying that invariant. Together: the peer's "largest
+// acknowledged" is forwarded to the received-packet side ONLY for the 1-RTT space — an ACK for an Initial or Handshake
+// packet must never make the application-data tracker forget packets (C07: the number spaces are separate).
+//@ func (h *sentPacketHandler) detectAndRemoveAckedPackets#head
+//@   props C06 C07
+//@   opt cutatloop 1
+//@   let sp = ite(encLevel == 1, h.initialPackets, ite(encLevel == 2, h.handshakePackets, h.appDataPackets))
+//@   requires 1 <= encLevel && encLevel <= 4 && ack.rangesValid() && sp != nil
+//@   ensures [busy-is-an-error] implies(old(len(h.ackedPackets)) > 0, result2 != nil && len(result0) == 0 && !result1)
+//@   ensures [nothing-forwarded-before-the-removal-loop] called("field:ignorePacketsBelow") == 0
+//@   modifies everything
+//@ loop (h *sentPacketHandler) detectAndRemoveAckedPackets#head #rf1
+//@   invariant _1 == nil && !hasAckEliciting
+//@ loop (h *sentPacketHandler) detectAndRemoveAckedPackets#head #rf2
+//@   invariant 0 <= ackRangeIndex && ackRangeIndex <= len(ack.AckRanges) - 1 && _1 == nil
+//@ loop (h *sentPacketHandler) detectAndRemoveAckedPackets#head #0
+//@   modifies nothing
+//@ loop (h *sentPacketHandler) detectAndRemoveAckedPackets#head #1
+//@   invariant called("field:ignorePacketsBelow") == 0
+//@   modifies nothing
+//@ func (h *sentPacketHandler) detectAndRemoveAckedPackets#tail
+//@   props C06 C07
+//@   opt startloop 1
+//@   requires 1 <= encLevel && encLevel <= 4 && h != nil && ack != nil
+//@   ensures [ack-of-ack-only-for-1rtt] implies(encLevel != 4, called("field:ignorePacketsBelow") == 0)
+//@   ensures [at-most-one-forward-per-acked-packet] called("field:ignorePacketsBelow") >= 0
+//@   unclaimed pre:(*sentPacketHistory).Remove@20.0 the history invariant is not carried across the removal loop (Remove itself is verified against it); stated as an assumption
+//@   unclaimed pre:(*sentPacketHistory).Remove@20.1 same
+//@   modifies everything
+//@ loop (h *sentPacketHandler) detectAndRemoveAckedPackets#tail #1
+//@   invariant implies(encLevel != 4, called("field:ignorePacketsBelow") == 0) && pnSpace != nil
+//@   modifies heap(sentPacketHistory.numOutstanding), heap(sentPacketHistory.packets), elems(*packet), heap(sentPacketHistory.firstPacketNumber)
+//@ loop (h *sentPacketHandler) detectAndRemoveAckedPackets#tail #2
+//@   modifies nothing
+//@ loop (h *sentPacketHandler) detectAndRemoveAckedPackets#tail #3
 //@   modifies nothing
